@@ -27,7 +27,13 @@ REPL = [("C", (0, 0, 0)), ("N", (2, 0, 0)), ("S", (0, 1, 0)), ("H", (0, 1, 1))]
 MASS = {"C": 12.0107, "N": 14.0067, "O": 15.9994, "Zn": 65.38, "S": 32.065, "H": 1.00794}
 
 
-def lmpdat_text(atoms, cell):
+# the same structure with one atom exactly on the upper x face of the box and one below the lower z face (legal in LAMMPS
+# data files), and force-field style type labels
+STRUCT_FACE = STRUCT[:6] + [("Zn", (6, 4, 4)), ("Zn", (2, 3, -1))]
+UFF_LABEL = {"C": "C_R", "N": "N_R", "O": "O_2", "Zn": "Zn3+2", "S": "S_3+2", "H": "H_"}
+
+
+def lmpdat_text(atoms, cell, labels=None):
     els = []
     for e, _ in atoms:
         if e not in els:
@@ -36,7 +42,7 @@ def lmpdat_text(atoms, cell):
     if cell:
         for c, ax in zip(cell, "xyz"):
             L.append(" 0.000000 %.6f %slo %shi" % (c * S, ax, ax))
-    L += ["", "Masses", ""] + [" %d %.6f   # %s" % (i + 1, MASS[e], e) for i, e in enumerate(els)]
+    L += ["", "Masses", ""] + [" %d %.6f   # %s" % (i + 1, MASS[e], (labels or {}).get(e, e)) for i, e in enumerate(els)]
     L += ["", "Atoms", ""]
     for i, (e, p) in enumerate(atoms):
         L.append(" %d 1 %d %.6f %.6f %.6f %.6f" % (i + 1, els.index(e) + 1, 0.0, p[0] * S, p[1] * S, p[2] * S))
@@ -145,9 +151,14 @@ def api_pipeline(O, paths, charges, sd):
         mic = O["mic2"] / 2e4
         atoms = atoms.replicate(np.array(np.ceil(2 * mic / np.diag(atoms.cell)), dtype=int))
     if O["pp"] == "yes":
-        # the API's own pair-coefficient assignment (not the helper inside the command-line module)
-        from mofun.rough_uff import assign_pair_coeffs
-        assign_pair_coeffs(atoms, assign_atom_type_labels_from_elements=True)
+        # what the option is documented to do, written out with the API's table and pair_coeffs(): every atom type is
+        # labelled with the first UFF type of its element and gets that type's Lennard-Jones parameters (neither the helper
+        # inside the command-line module nor the label inference of rough_uff.assign_pair_coeffs is used)
+        from mofun.rough_uff import pair_coeffs
+        from mofun.uff4mof import UFF4MOF
+        keys = [[k for k in UFF4MOF if k.startswith(el.ljust(2, "_"))][0] for el in atoms.atom_type_elements]
+        atoms.atom_type_labels = keys
+        atoms.pair_coeffs = ['%10.6f %10.6f # %s' % (*pair_coeffs(k), k) for k in keys]
     found = None
     random.seed(sd)
     np.random.seed(sd)
@@ -159,7 +170,8 @@ def api_pipeline(O, paths, charges, sd):
             atoms = replace_pattern_in_structure(atoms, sp, rp, atol=O["atol"] / 1e4, replace_fraction=O["fn"] / O["fd"],
                                                  axisp1_idx=h[0], axisp2_idx=h[1], opoint_idx=h[2])
         else:
-            found = find_pattern_in_structure(atoms, sp, atol=O["atol"] / 1e4)
+            # find-only: the structure is written as loaded (the search gets its own copy)
+            found = find_pattern_in_structure(atoms.copy(), sp, atol=O["atol"] / 1e4)
     atoms.save(paths["api_output"])
     return found
 
@@ -171,12 +183,14 @@ def run_one(O, td, sd, extra_args=()):
              "api_output": "api." + O["output"], "charges": "q.txt"}
     paths = {k: os.path.join(td, v) for k, v in names.items()}
     roles = {v: k for k, v in names.items()}
-    text = {"lmpdat": lmpdat_text(STRUCT, CELL), "cif": cif_text(STRUCT, CELL), "cml": cml_text(STRUCT)}[O["input"]]
+    pick = sum(ord(c) for c in json.dumps(O, sort_keys=True)) + sd
+    struct = STRUCT_FACE if (O["input"] == "lmpdat" and pick % 2 == 1) else STRUCT
+    text = {"lmpdat": lmpdat_text(struct, CELL, UFF_LABEL if (pick % 4 >= 2 or O["pp"] == "yes") else None), "cif": cif_text(STRUCT, CELL), "cml": cml_text(STRUCT)}[O["input"]]
     open(paths["input"], "w").write(text)
     open(paths["find"], "w").write(cml_text(FIND))
     open(paths["replace"], "w").write(cml_text(REPL, bonds=((0, 1), (2, 3))))
     open(paths["uc"], "w").write(cif_text(STRUCT[:1], CELL))
-    charges = [round(0.125 * (i - 3), 6) for i in range(len(STRUCT))]
+    charges = [round(0.125 * (i - 3), 6) for i in range(len(struct))]
     open(paths["charges"], "w").write("\n".join("%.6f" % q for q in charges) + "\n\n")
     for p in (paths["output"], paths["api_output"]):
         if os.path.exists(p):
